@@ -132,6 +132,7 @@ def exnName : Exn → String
   | .typeError => "TypeError" | .valueError => "ValueError" | .indexError => "IndexError"
   | .zeroDiv => "ZeroDivisionError" | .keyError => "KeyError" | .attrError => "AttributeError"
   | .unbound => "UnboundLocalError" | .other => "Other"
+  | .emptyData => "EmptyDataError" | .dataError => "DataError" | .fileNotFound => "FileNotFoundError"
 
 def jOutcome {α} (f : α → Json) : Outcome α → Json
   | .ok a => Json.mkObj [("ok", f a)]
